@@ -10,6 +10,7 @@ import M17.Model.Cond
 import M17.Model.Puncture
 import M17.Model.Callsign
 import M17.Model.Prbs
+import M17.Model.Viterbi
 
 open M17
 
@@ -98,6 +99,10 @@ def handle (st : DrvState) (op : String) (a : List Int) : DrvState × String :=
     let g := match rest with | [x] => x.toNat | _ => Gen.prbsInitState
     (st, joinInts ((bitsToInts (Prbs.genBits n.toNat g)) ++ [Int.ofNat (Prbs.genState n.toNat g)]))
   | "prbs", toks => (st, prbsScenario toks)
+  | "vit", llr :: _ :: nout :: v =>
+    let (c, bits) := Vit.decode llr.toNat v nout.toNat
+    let m := Vit.dp ((Vit.pairs v).map (fun p => Vit.branch (Vit.costTbl llr.toNat) p.1 p.2)) Vit.initMetrics
+    (st, joinInts (Int.ofNat c :: Int.ofNat (m.foldl max 0) :: bitsToInts bits))
   | _, _ => (st, "bad-op")
 
 partial def loop (h : IO.FS.Stream) (out : IO.FS.Stream) (st : DrvState) : IO Unit := do
